@@ -164,6 +164,7 @@ def run(ctx):
     ctx.coverage["evaluations"] += enc.get("compared") or 0
     session_part(ctx)
     later_field_part(ctx)
+    concurrent_part(ctx)
     import e2e_hook
     e2e_hook.run(ctx, ["c16"])
     if divs and not ctx.violations:
@@ -434,6 +435,43 @@ def replay_later_field(ctx, rep):
         rig.close()
 
 
+# ------------------------------------------------------------------ versions of OVERLAPPING sessions
+def concurrent_case(seed):
+    from props import c10
+    res = c10.case(seed)
+    if not isinstance(res, tuple) or res[0] == "error":
+        return {"fails": [], "n": 0, "error": str(res)[:300]}
+    prefix, threads, outs, order, dump, waited, errs = res
+    fails = []
+    n = 0
+    for t, (lines, os_) in enumerate(zip(threads, outs)):
+        pairs = [(l, o) for l, o in zip(lines, os_) if isinstance(o, dict) and "exception" not in o]
+        n += len(pairs)
+        for sig, what, idx in mon_c16([l for l, _ in pairs], [o for _, o in pairs]):
+            fails.append((sig + ":concurrent", "thread %d of %d client threads on one engine (versions %s): %s"
+                          % (t, len(threads), [th[0]["req"]["version"] for th in threads if th], what)))
+    return {"fails": fails, "n": n}
+
+
+def concurrent_part(ctx):
+    """client threads speaking DIFFERENT protocol versions on one engine at the same time (the threaded workloads of
+    the C10 check, with yield points inside the engine): every request is gated, answered and its attributes listed
+    under ITS OWN version - the version monitor of this check applied to each thread's conversation"""
+    import multiprocessing
+    n = 60 if ctx.tier == "quick" else 1500
+    seeds = [ctx.seed * 4241 + 9000 + i for i in range(n)]
+    with multiprocessing.get_context("fork").Pool(8) as pool:
+        res = pool.map(concurrent_case, seeds)
+    tot = 0
+    for sd, r in zip(seeds, res):
+        tot += r["n"]
+        for sig, what in r["fails"][:2]:
+            ctx.report(sig, what, {"kind": "concurrent-versions", "seed": sd})
+    ctx.coverage["concurrent_version_workloads"] = n
+    ctx.coverage["concurrent_version_requests"] = tot
+    ctx.coverage["evaluations"] += tot
+
+
 def search(ctx, broken):
     matrix = engine_check.run_many([ctx.seed * 31 + k for k in range(4)], 0, {"builtin_policies_only": True},
                                    True, "props.c16.matrix_builder")
@@ -450,6 +488,13 @@ def replay(ctx, rep):
         return e2e_hook.replay(ctx, rep)
     if (rep.get("replay") or {}).get("kind") == "session-versions":
         return replay_session(ctx, rep)
+    if (rep.get("replay") or {}).get("kind") == "concurrent-versions":
+        bad = 0
+        for _ in range(10):
+            r = concurrent_case(rep["replay"]["seed"])
+            bad += 1 if r["fails"] else 0
+        print("  runs (of 10) with a request served under another session's version: %d" % bad)
+        return bad == 0
     if (rep.get("replay") or {}).get("kind") == "later-field":
         return replay_later_field(ctx, rep)
     if (rep.get("replay") or {}).get("kind") == "encode":
